@@ -57,21 +57,32 @@ def s1(chk: Check, proj: Project, m, cls) -> None:
     for public, impl in (("get", "_get"), ("set", "_set")):
         f = _method(m, cls, impl, public) if any(isinstance(s, ast.FunctionDef) and s.name == impl for s in cls.body) else _method(m, cls, public)
         chk.analysed(fkey(m, f))
-        hit = next((s for s in stmts(f) if isinstance(s, ast.If) and norm(s.test) == "key in self.cache"), None)
-        if hit is None:
-            chk.undecided("S1", f"util.cache:LRUCache.{public}:hit-branch", m.loc(f), "hit branch `if key in self.cache` not found")
+        # the statements that run on a HIT: those whose path condition contains `key in self.cache` (positively) - whatever
+        # the spelling (`if key in self.cache: ...` or the guard form `if key not in self.cache: return ...` + rest)
+        def on_hit(st: ast.AST) -> bool:
+            at = cond_atoms(st)
+            return any((t == "key in self.cache" and pol) or (t == "key not in self.cache" and not pol) for t, pol in at)
+
+        hit_stmts = [st for st in stmts(f) if on_hit(st) and not isinstance(st, (ast.If,))]
+        if not hit_stmts:
+            chk.undecided("S1", f"util.cache:LRUCache.{public}:hit-branch", m.loc(f), "no statement is conditional on `key in self.cache`")
             continue
-        # top-level statements of the hit branch
-        body = hit.body
-        node_var = next((norm(s.targets[0]) for s in body if isinstance(s, ast.Assign) and norm(s.value) == "self.cache[key]"), None)
+        hit = hit_stmts[0]
+        node_var = next((norm(s.targets[0]) for s in hit_stmts if isinstance(s, ast.Assign) and norm(s.value) == "self.cache[key]"), None)
+        # same nesting level as the lookup: the statements that follow it in its own block
+        blk = next((b_ for a_ in ancestors(hit_stmts[0]) for b_ in (getattr(a_, "body", None), getattr(a_, "orelse", None)) if isinstance(b_, list) and hit_stmts[0] in b_), [])
+        look = next((s for s in blk if isinstance(s, ast.Assign) and norm(s.value) == "self.cache[key]"), None)
+        body = blk[blk.index(look):] if look is not None else []
+        # cut at the end of the hit path (in the guard spelling the block continues to the end of the function, which is fine:
+        # it IS the hit path); in the `if/else` spelling the block is the if-body
         rem = [i for i, s in enumerate(body) if isinstance(s, ast.Expr) and isinstance(s.value, ast.Call) and norm(s.value.func) == "self._remove" and s.value.args and norm(s.value.args[0]) == node_var]
         add = [i for i, s in enumerate(body) if isinstance(s, ast.Expr) and isinstance(s.value, ast.Call) and norm(s.value.func) == "self._add_to_front" and s.value.args and norm(s.value.args[0]) == node_var]
-        # nothing may leave the hit branch before the move (an early `return` for "nothing to update" skips the refresh)
+        # nothing may leave the hit path before the move (an early `return` for "nothing to update" skips the refresh)
         early = [x for i, s in enumerate(body) if add and i < add[0] for x in ast.walk(s) if isinstance(x, (ast.Return, ast.Raise, ast.Break, ast.Continue))]
         ok = node_var is not None and len(rem) == 1 and len(add) == 1 and rem[0] < add[0] and not early
         chk.ob("S1", f"util.cache:LRUCache.{public}:move-to-front", m.loc(early[0]) if early else m.loc(hit), ok,
                f"on a hit `{node_var}` is removed and re-added at the front unconditionally" if ok else
-               f"on a hit of {public}() the node is not unconditionally `_remove`d and `_add_to_front`ed (directly in the hit branch): a hit on some entries does not refresh them and the wrong entry is evicted next")
+               f"on a hit of {public}() the node is not unconditionally `_remove`d and `_add_to_front`ed (directly on the hit path): a hit on some entries does not refresh them and the wrong entry is evicted next")
         if public == "get":
             r = [s for s in body if isinstance(s, ast.Return)]
             okr = bool(r) and norm(r[-1].value) == f"{node_var}.value"
